@@ -26,13 +26,20 @@ type Limits struct {
 
 type Loader struct {
 	mu     sync.RWMutex
-	cache  map[string]*ast.Journal
+	cache  map[string]cachedFile
 	limits Limits
+}
+
+// cachedFile is the parse of one included file; which files it pulls in is
+// resolved again on every load.
+type cachedFile struct {
+	journal     *ast.Journal
+	parseErrors []LoadError
 }
 
 func NewLoader() *Loader {
 	return &Loader{
-		cache:  make(map[string]*ast.Journal),
+		cache:  make(map[string]cachedFile),
 		limits: DefaultLimits(),
 	}
 }
@@ -122,8 +129,12 @@ func (l *Loader) LoadFromContent(path, content string) (*ResolvedJournal, []Load
 }
 
 func (l *Loader) loadWithContent(path, content string, state *loadState) (*ResolvedJournal, []LoadError) {
-	var errors []LoadError
+	journal, errors := parseForLoad(path, content)
+	return l.resolveIncludes(path, journal, errors, state)
+}
 
+func parseForLoad(path, content string) (*ast.Journal, []LoadError) {
+	var errors []LoadError
 	journal, parseErrs := parser.Parse(content)
 	for _, e := range parseErrs {
 		pos := ast.Position{
@@ -138,7 +149,11 @@ func (l *Loader) loadWithContent(path, content string, state *loadState) (*Resol
 			Range:   ast.Range{Start: pos, End: pos},
 		})
 	}
+	return journal, errors
+}
 
+// resolveIncludes follows the include directives of an already parsed file.
+func (l *Loader) resolveIncludes(path string, journal *ast.Journal, errors []LoadError, state *loadState) (*ResolvedJournal, []LoadError) {
 	result := NewResolvedJournal(journal)
 	state.ancestors[path] = true
 	state.loaded[path] = true
@@ -219,57 +234,57 @@ func (l *Loader) loadSingleInclude(
 	l.mu.RLock()
 	cached, ok := l.cache[includePath]
 	l.mu.RUnlock()
+
+	var journal *ast.Journal
 	if ok {
-		state.loaded[includePath] = true
-		result.Files[includePath] = cached
-		result.FileOrder = append(result.FileOrder, includePath)
-		return errors
-	}
+		journal, errors = cached.journal, append(errors, cached.parseErrors...)
+	} else {
+		info, err := os.Stat(includePath)
+		if err != nil {
+			errors = append(errors, LoadError{
+				Kind:    ErrorFileNotFound,
+				Path:    includePath,
+				Message: fmt.Sprintf("cannot read included file: %v", err),
+				Range:   incRange,
+			})
+			return errors
+		}
 
-	info, err := os.Stat(includePath)
-	if err != nil {
-		errors = append(errors, LoadError{
-			Kind:    ErrorFileNotFound,
-			Path:    includePath,
-			Message: fmt.Sprintf("cannot read included file: %v", err),
-			Range:   incRange,
-		})
-		return errors
-	}
+		if info.Size() > limits.MaxFileSizeBytes {
+			errors = append(errors, LoadError{
+				Kind:    ErrorFileTooLarge,
+				Path:    includePath,
+				Message: fmt.Sprintf("included file too large: %d bytes (max %d)", info.Size(), limits.MaxFileSizeBytes),
+				Range:   incRange,
+			})
+			return errors
+		}
 
-	if info.Size() > limits.MaxFileSizeBytes {
-		errors = append(errors, LoadError{
-			Kind:    ErrorFileTooLarge,
-			Path:    includePath,
-			Message: fmt.Sprintf("included file too large: %d bytes (max %d)", info.Size(), limits.MaxFileSizeBytes),
-			Range:   incRange,
-		})
-		return errors
-	}
+		incContent, err := os.ReadFile(includePath)
+		if err != nil {
+			errors = append(errors, LoadError{
+				Kind:    ErrorFileNotFound,
+				Path:    includePath,
+				Message: fmt.Sprintf("cannot read included file: %v", err),
+				Range:   incRange,
+			})
+			return errors
+		}
 
-	incContent, err := os.ReadFile(includePath)
-	if err != nil {
-		errors = append(errors, LoadError{
-			Kind:    ErrorFileNotFound,
-			Path:    includePath,
-			Message: fmt.Sprintf("cannot read included file: %v", err),
-			Range:   incRange,
-		})
-		return errors
-	}
-
-	subResult, subErrors := l.loadWithContent(includePath, string(incContent), state)
-	errors = append(errors, subErrors...)
-
-	if subResult != nil && subResult.Primary != nil {
+		var parseErrors []LoadError
+		journal, parseErrors = parseForLoad(includePath, string(incContent))
+		errors = append(errors, parseErrors...)
 		l.mu.Lock()
-		l.cache[includePath] = subResult.Primary
+		l.cache[includePath] = cachedFile{journal: journal, parseErrors: parseErrors}
 		l.mu.Unlock()
-		result.Files[includePath] = subResult.Primary
-		result.FileOrder = append(result.FileOrder, includePath)
-		maps.Copy(result.Files, subResult.Files)
-		result.FileOrder = append(result.FileOrder, subResult.FileOrder...)
 	}
+
+	// The cache holds the parsed file only; its own includes are followed on every load.
+	subResult, errors := l.resolveIncludes(includePath, journal, errors, state)
+	result.Files[includePath] = subResult.Primary
+	result.FileOrder = append(result.FileOrder, includePath)
+	maps.Copy(result.Files, subResult.Files)
+	result.FileOrder = append(result.FileOrder, subResult.FileOrder...)
 
 	return errors
 }
@@ -308,7 +323,7 @@ func (l *Loader) expandGlob(basePath, pattern string) ([]string, error) {
 func (l *Loader) ClearCache() {
 	l.mu.Lock()
 	defer l.mu.Unlock()
-	l.cache = make(map[string]*ast.Journal)
+	l.cache = make(map[string]cachedFile)
 }
 
 func (l *Loader) InvalidateFile(path string) {
